@@ -92,6 +92,12 @@ func mkDist(a []Tok) (stats.DistCommon, []Tok) {
 			return stats.TDist{V: 2.5}, a[2:]
 		case "t300":
 			return stats.TDist{V: 300}, a[2:]
+		case "n01":
+			return stats.StdNormal, a[2:]
+		case "n25":
+			return stats.NormalDist{Mu: 2, Sigma: 5}, a[2:]
+		case "nfar":
+			return stats.NormalDist{Mu: -1000, Sigma: 0.25}, a[2:]
 		}
 	}
 	panic("dist kind")
@@ -102,6 +108,23 @@ func execInv(a []Tok) string {
 		d := &ownDist{pwDist{x: []float64{0, 1}, l: []float64{0, 1}, r: []float64{0, 1}}}
 		y := a[1].F()
 		return fmtF(stats.InvCDF(d)(y)) + " " + fmtF(d.InvCDF(y))
+	}
+	if a[0].Atom == "pwmut" {
+		// inv pwmut pw1 pw2 ys: the function is taken while the distribution object holds pw1;
+		// the object's fields are then replaced by pw2's and the same function is queried: it
+		// must answer for the distribution as it is at the time of the call
+		d := mkPW(a[1])
+		inv := stats.InvCDF(d)
+		ys := a[3].Fs()
+		for _, y := range ys {
+			inv(y)
+		}
+		*d = *mkPW(a[2])
+		xs := make([]float64, len(ys))
+		for i, y := range ys {
+			xs[i] = inv(y)
+		}
+		return fmtFs(xs)
 	}
 	d, rest := mkDist(a)
 	if rest[0].IsArr {
@@ -118,8 +141,8 @@ func execInv(a []Tok) string {
 	y := rest[0].F()
 	x := stats.InvCDF(d)(y)
 	if a[0].Atom == "cont" {
-		below := x - 1e-9*math.Max(1, math.Abs(x))
-		return fmtF(x) + " " + fmtF(d.CDF(x)) + " " + fmtF(d.CDF(below))
+		dx := 1e-9 * math.Max(1, math.Abs(x))
+		return fmtF(x) + " " + fmtF(d.CDF(x+dx)) + " " + fmtF(d.CDF(x-dx))
 	}
 	return fmtF(x)
 }
@@ -259,6 +282,17 @@ func genC07(w *bufio.Writer, tier string, rng *rand.Rand) {
 		if rng.Intn(4) == 0 {
 			fmt.Fprintf(w, "rnd pw %s %d\n", pw, rng.Intn(1<<30))
 		}
+		if rng.Intn(6) == 0 { // the distribution object changes after the function was taken
+			var ys2 []float64
+			for _, y := range ys {
+				if y > 0 && y < 1 {
+					ys2 = append(ys2, y)
+				}
+			}
+			if len(ys2) > 0 {
+				fmt.Fprintf(w, "inv pwmut %s %s %s\n", randPW(rng), pw, fmtFs(ys2))
+			}
+		}
 	}
 	// long histories through one closure (thousands of queries of one returned function)
 	for k := 0; k < pick(tier, 6, 60); k++ {
@@ -328,7 +362,18 @@ func genC07(w *bufio.Writer, tier string, rng *rand.Rand) {
 			}
 		case 3:
 			if y > 0 && y < 1 {
-				fmt.Fprintf(w, "inv cont %s %s\n", []string{"t1", "t5", "t2.5", "t300"}[rng.Intn(4)], fmtF(y))
+				if rng.Intn(3) == 0 { // far tails: the answer must be right relative to its own size
+					y = math.Pow(10, -rng.Float64()*300)
+					if rng.Intn(4) == 0 {
+						y = 1 - math.Pow(10, -rng.Float64()*15)
+					}
+				}
+				kinds := []string{"t1", "t5", "t2.5", "t300", "n01", "n25", "nfar"}
+				kd := kinds[rng.Intn(len(kinds))]
+				if kd[0] == 't' && y < 1e-12 { // Student t quantiles at such levels leave the range the t CDF resolves
+					kd = "n01"
+				}
+				fmt.Fprintf(w, "inv cont %s %s\n", kd, fmtF(y))
 			}
 		case 4:
 			fmt.Fprintf(w, "inv own %s\n", fmtF(y))
